@@ -113,7 +113,7 @@ class C04(core.Check):
                                        'means:align', 'means:created-zone', 'order:ascending', 'order:descending',
                                        'order:interleaved', 'overlap:non-adjacent', 'expect:REJECT', 'expect:ACCEPT',
                                        'output:bin', 'output:nobin', 'output:both', 'window-excludes-the-overlap',
-                                       'means:macro-with-non-byte-steps', 'means:embedded-string', 'means:zerountil-behind-the-cursor', 'embedded-string:two-byte-character', 'embedded-string:three-byte-character', 'means:global-relative-org', 'unselected-origin-before-bytes']}
+                                       'means:macro-with-non-byte-steps', 'means:embedded-string', 'means:zerountil-behind-the-cursor', 'means:include-from-inside-a-zone', 'embedded-string:two-byte-character', 'embedded-string:three-byte-character', 'means:global-relative-org', 'unselected-origin-before-bytes']}
 
     def build(self, rng, items, means_list=None, order=None, mute=None, out_mode=None):
         """items: [(addr, len)]"""
@@ -329,6 +329,28 @@ class C04(core.Check):
                                     'intervals': iv_, 'out_mode': 'bin'},
                            'tags': sorted({'means:zerountil-behind-the-cursor', 'expect:' + ('REJECT' if shape == 'overlap' else 'ACCEPT'),
                                            'output:bin', 'order:ascending'})}
+        # an included file starts at the GLOBAL cursor, whatever zone its includer has selected: its bytes collide with (or stay
+        # clear of) what lies there, not what lies at the includer's zone cursor
+        isa_i = gen_prog.layout_isa(16, zones=[{'name': 'ZL', 'start': 0, 'end': 0x0F}])
+        fn_i, text_i = isamod.render_isa(isa_i, 'json')
+        for k_, (main_, inc_, kind_, M_) in enumerate([
+                (['.memzone ZL', '.byte 1, 2, 3, 4', '#include "inc.asm"'], ['.byte $C1'], 'REJECT', {0: 1, 1: 2, 2: 3, 3: 4}),
+                (['.memzone ZL', '.byte 1, 2, 3, 4', '#include "inc.asm"'], ['.org 4', '.byte $C1'], 'ACCEPT', {0: 1, 1: 2, 2: 3, 3: 4, 4: 0xC1}),
+                (['.org 8', '.byte $A1', '.memzone ZL', '.byte $B1, $B2', '#include "inc.asm"', '.byte $B3'], ['.byte $C1'], 'ACCEPT',
+                 {8: 0xA1, 0: 0xB1, 1: 0xB2, 9: 0xC1, 2: 0xB3}),
+                (['.org 2', '.byte $A1', '.memzone ZL', '.org 3 "ZL"', '#include "inc.asm"', '.byte $B3'], ['.byte $C1'], 'REJECT',
+                 {2: 0xA1, 3: 0xC1}),
+                (['.org 2', '.byte $A1', '.memzone ZL', '.org 4 "ZL"', '#include "inc.asm"', '.byte $B3'], ['.byte $C1'], 'ACCEPT',
+                 {2: 0xA1, 3: 0xC1, 4: 0xB3}),
+                (['.org 2', '.byte $A1', '.memzone ZL', '.org 4 "ZL"', '#include "inc.asm"', '.byte $B3'], ['.byte $C1, $C2'], 'REJECT',
+                 {2: 0xA1, 3: 0xC1})]):
+            end_ = 12
+            yield {'runs': [{'files': {fn_i: text_i, 'p.asm': '\n'.join(main_) + '\n', 'inc.asm': '\n'.join(inc_) + '\n'},
+                             'argv': ['compile', '-c', fn_i, 'p.asm', '-o', 'out.bin', '-e', str(end_)],
+                             'probes': ['steps'], 'step_limit': 300000}],
+                   'meta': {'kind': kind_, 'M': {str(k): v for k, v in M_.items()}, 'end': end_,
+                            'intervals': [[a_, 1] for a_ in sorted(M_)], 'out_mode': 'bin'},
+                   'tags': sorted({'means:include-from-inside-a-zone', 'expect:' + kind_, 'output:bin', 'order:ascending'})}
         # GLOBAL redefined with a non-zero start: '.org v "GLOBAL"' is v above that start, '.org a' is absolute
         for gs in (0x100, 0x10):
             isa_g = gen_prog.layout_isa(16, global_zone=(gs, 0x7FFF), origin=gs)
